@@ -987,3 +987,289 @@ pub fn c14_real(v: &Verdicts, runs: usize, seed0: u64) -> RealStats {
     });
     st.into_inner().unwrap()
 }
+
+// ------------------------------------------------------------------------------------------------ C10
+/// Hostile input at the level of the transports against one real process: framing the in-process corpus cannot express
+/// (a lying Content-Length, aborted connections, endless lines, broken WebSocket frames) and input whose failure mode
+/// is an abort of the whole process (stack overflow, allocation failure), which no in-process harness survives.
+/// After every input class: is the process alive, do the three listeners still serve a fresh client, did a thread panic?
+fn raw_send(addr: &str, bytes: &[u8], hold_ms: u64, reset: bool) {
+    use std::io::Write;
+    if let Ok(mut s) = std::net::TcpStream::connect(addr) {
+        let _ = s.set_write_timeout(Some(Duration::from_secs(5)));
+        let _ = s.write_all(bytes);
+        std::thread::sleep(Duration::from_millis(hold_ms));
+        if reset {
+            use std::os::unix::io::AsRawFd;
+            let lin = libc::linger { l_onoff: 1, l_linger: 0 };
+            unsafe {
+                libc::setsockopt(s.as_raw_fd(), libc::SOL_SOCKET, libc::SO_LINGER, &lin as *const _ as *const libc::c_void, std::mem::size_of::<libc::linger>() as libc::socklen_t);
+            }
+        }
+    }
+}
+
+fn probe_listeners(c: &RealCluster) -> Result<(), String> {
+    use crate::transports::{http_post, WsClient};
+    let n = &c.nodes[0];
+    let mut t = RealClient::connect(&n.tcp).ok_or("tcp-listener-does-not-accept")?;
+    match t.cmd("use-db pdb ptok") {
+        Ok((true, _, _)) => {}
+        other => return Err(format!("tcp-listener-does-not-serve: {:?}", other)),
+    }
+    match t.cmd("set probe 1") {
+        Ok((true, _, _)) => {}
+        other => return Err(format!("tcp-listener-does-not-serve: {:?}", other)),
+    }
+    // every one of the four HTTP workers
+    for i in 0..6 {
+        match http_post(&n.http, format!("use-db pdb ptok;set hprobe {};get hprobe", i).as_bytes(), Duration::from_secs(10)) {
+            Ok(r) if r.contains(&format!("value {}", i)) => {}
+            other => return Err(format!("http-listener-does-not-serve: {:?}", other)),
+        }
+    }
+    let mut w = WsClient::connect(&n.ws).map_err(|e| format!("ws-listener-does-not-accept: {}", e))?;
+    w.send_text("use-db pdb ptok;set wprobe 7;get wprobe");
+    let r = w.read_until("value 7", Duration::from_secs(10));
+    w.close();
+    if r.is_err() {
+        return Err(format!("ws-listener-does-not-serve: {:?}", r));
+    }
+    Ok(())
+}
+
+pub fn c10_real(v: &Verdicts, thorough: bool) -> RealStats {
+    let mut st = RealStats::default();
+    if std::env::var("VERIF_NO_REAL").is_ok() {
+        return st;
+    }
+    let deep = |n: usize| format!("{}get probe", "rp 1 ".repeat(n));
+    // (class, transport, payloads, hold ms, end with a reset)
+    let mut inputs: Vec<(&str, &str, Vec<Vec<u8>>, u64, bool)> = vec![];
+    let tcp_pre = b"auth admin pwd\nuse-db pdb ptok\n".to_vec();
+    for (name, n) in [("rp-nested-200-deep", 200usize), ("rp-nested-3000-deep", 3000), ("rp-nested-30000-deep", 30000)] {
+        inputs.push((name, "tcp", vec![[tcp_pre.clone(), format!("{}\n", deep(n)).into_bytes()].concat()], 400, false));
+    }
+    inputs.push(("rp-nested-3000-deep-unauthenticated", "tcp", vec![format!("{}\n", deep(3000)).into_bytes()], 400, false));
+    inputs.push(("rp-nested-3000-deep", "http", vec![format!("POST / HTTP/1.1\r\nHost: x\r\nConnection: close\r\nContent-Length: {}\r\n\r\n{}", deep(3000).len(), deep(3000)).into_bytes()], 400, false));
+    inputs.push(("rp-nested-3000-deep", "ws", vec![deep(3000).into_bytes()], 400, false));
+    inputs.push(("connections-aborted-before-they-are-served", "tcp", (0..60).map(|_| vec![]).collect(), 0, true));
+    inputs.push(("connections-aborted-before-they-are-served", "http", (0..30).map(|_| vec![]).collect(), 0, true));
+    inputs.push(("connections-aborted-before-they-are-served", "ws", (0..30).map(|_| vec![]).collect(), 0, true));
+    inputs.push(("line-of-3-MB-without-end", "tcp", vec![vec![b'a'; 3_000_000]], 200, false));
+    inputs.push(("line-of-3-MB-without-end-then-reset", "tcp", vec![vec![b'a'; 3_000_000]], 50, true));
+    inputs.push(("binary-garbage", "tcp", vec![(0..4096u32).map(|i| (i.wrapping_mul(2654435761) >> 13) as u8).collect()], 100, false));
+    inputs.push(("content-length-larger-than-the-body", "http", (0..6).map(|_| b"POST / HTTP/1.1\r\nHost: x\r\nConnection: close\r\nContent-Length: 500\r\n\r\nauth admin pwd".to_vec()).collect(), 150, false));
+    inputs.push(("content-length-of-100-terabytes", "http", (0..2).map(|_| b"POST / HTTP/1.1\r\nHost: x\r\nConnection: close\r\nContent-Length: 99999999999999\r\n\r\nauth admin pwd".to_vec()).collect(), 150, false));
+    inputs.push(("content-length-not-a-number", "http", vec![b"POST / HTTP/1.1\r\nHost: x\r\nContent-Length: -5\r\n\r\nauth admin pwd".to_vec(), b"POST / HTTP/1.1\r\nHost: x\r\nContent-Length: abc\r\n\r\nx".to_vec()], 150, false));
+    inputs.push(("chunked-body-with-a-broken-chunk-size", "http", vec![b"POST / HTTP/1.1\r\nHost: x\r\nTransfer-Encoding: chunked\r\n\r\nffffffffffffffff\r\nauth admin pwd\r\n0\r\n\r\n".to_vec(), b"POST / HTTP/1.1\r\nHost: x\r\nTransfer-Encoding: chunked\r\n\r\nzz\r\nauth\r\n".to_vec()], 150, false));
+    inputs.push(("request-line-garbage", "http", vec![b"\x00\x01\x02 / HTTP/9.9\r\n\r\n".to_vec(), b"GET\r\n\r\n".to_vec(), vec![b'A'; 100_000]], 100, false));
+    inputs.push(("body-that-is-not-utf8", "http", vec![[b"POST / HTTP/1.1\r\nHost: x\r\nConnection: close\r\nContent-Length: 4\r\n\r\n".to_vec(), vec![0xff, 0xfe, 0x80, 0x81]].concat()], 150, false));
+    inputs.push(("handshake-garbage", "ws", vec![b"GET / HTTP/1.1\r\nUpgrade: websocket\r\n\r\n".to_vec(), vec![0x81, 0xff, 0xff, 0xff, 0xff, 0xff, 0xff, 0xff, 0xff, 0xff, 1, 2, 3, 4]], 150, false));
+    inputs.push(("frame-that-announces-8-exabytes", "ws-frame", vec![vec![0x81, 0xff, 0x7f, 0xff, 0xff, 0xff, 0xff, 0xff, 0xff, 0xff, 1, 2, 3, 4, b'g', b'e', b't']], 200, false));
+    inputs.push(("fragment-never-finished-then-reset", "ws-frame", vec![vec![0x01, 0x83, 1, 2, 3, 4, b'g' ^ 1, b'e' ^ 2, b't' ^ 3]], 100, true));
+    inputs.push(("text-frame-that-is-not-utf8", "ws-frame", vec![vec![0x81, 0x84, 0, 0, 0, 0, 0xff, 0xfe, 0x80, 0x81]], 150, false));
+    if thorough {
+        for (name, n) in [("rp-nested-1000-deep", 1000usize), ("rp-nested-10000-deep", 10000)] {
+            inputs.push((name, "tcp", vec![[tcp_pre.clone(), format!("{}\n", deep(n)).into_bytes()].concat()], 400, false));
+        }
+        inputs.push(("connections-aborted-before-they-are-served", "tcp", (0..600).map(|_| vec![]).collect(), 0, true));
+    }
+    let mut c = RealCluster::new(1, "c10", &[]);
+    let mut started = false;
+    for (class, transport, payloads, hold, reset) in inputs {
+        if !started || !c.alive(0) {
+            if started {
+                c.kill(0);
+            }
+            if !c.start(0) || settle(&mut c, &[0], 40).is_err() {
+                st.inconclusive += 1;
+                v.inconclusive("the real node for the transport-level inputs could not be started");
+                break;
+            }
+            started = true;
+            if let Some(mut a) = c.admin(0) {
+                let _ = a.must("create-db pdb ptok");
+            }
+            if let Err(e) = probe_listeners(&c) {
+                st.inconclusive += 1;
+                v.inconclusive(&format!("fresh node does not pass the probes: {}", e));
+                break;
+            }
+        }
+        let before_panics = c.panics(0).len();
+        let addr = match transport {
+            "tcp" => c.nodes[0].tcp.clone(),
+            "http" => c.nodes[0].http.clone(),
+            _ => c.nodes[0].ws.clone(),
+        };
+        for p in &payloads {
+            match transport {
+                "ws" if class.starts_with("rp-") => {
+                    if let Ok(mut w) = crate::transports::WsClient::connect(&addr) {
+                        w.send_text("auth admin pwd;use-db pdb ptok");
+                        w.send_text(&String::from_utf8_lossy(p));
+                        std::thread::sleep(Duration::from_millis(hold));
+                    }
+                }
+                "ws-frame" => {
+                    // a proper handshake first, then the raw frame bytes
+                    use std::io::{Read, Write};
+                    if let Ok(mut s) = std::net::TcpStream::connect(&addr) {
+                        let _ = s.set_read_timeout(Some(Duration::from_secs(2)));
+                        let _ = s.write_all(format!("GET / HTTP/1.1\r\nHost: {}\r\nUpgrade: websocket\r\nConnection: Upgrade\r\nSec-WebSocket-Key: dGhlIHNhbXBsZSBub25jZQ==\r\nSec-WebSocket-Version: 13\r\n\r\n", addr).as_bytes());
+                        let mut tmp = [0u8; 2048];
+                        let _ = s.read(&mut tmp);
+                        let _ = s.write_all(p);
+                        std::thread::sleep(Duration::from_millis(hold));
+                        if reset {
+                            use std::os::unix::io::AsRawFd;
+                            let lin = libc::linger { l_onoff: 1, l_linger: 0 };
+                            unsafe {
+                                libc::setsockopt(s.as_raw_fd(), libc::SOL_SOCKET, libc::SO_LINGER, &lin as *const _ as *const libc::c_void, std::mem::size_of::<libc::linger>() as libc::socklen_t);
+                            }
+                        }
+                    }
+                }
+                _ => raw_send(&addr, p, hold, reset),
+            }
+        }
+        std::thread::sleep(Duration::from_millis(300));
+        st.ops += payloads.len() as u64;
+        st.judged_points += 1;
+        st.classes.insert(format!("{}/{}", transport, class));
+        let problem: Option<(String, String)> = if !c.alive(0) {
+            Some(("the-process-died".into(), c.log_tail(0, 8).join(" | ")))
+        } else if let Err(e) = probe_listeners(&c) {
+            // once more with fresh connections before it counts
+            std::thread::sleep(Duration::from_millis(1500));
+            match probe_listeners(&c) {
+                Ok(()) => None,
+                Err(e2) => Some((e2.split(':').next().unwrap_or("probe-failed").to_string(), format!("{} / {}", e, e2))),
+            }
+        } else if c.panics(0).len() > before_panics {
+            Some(("a-thread-of-the-node-panicked".into(), c.panics(0)[before_panics..].join(" | ")))
+        } else {
+            None
+        };
+        if let Some((p, detail)) = problem {
+            v.report(json!({"check": "real-process", "transport": transport.replace("-frame", ""), "input": class, "problem": p}), json!({"detail": detail, "payload_bytes": payloads.iter().map(|x| x.len()).collect::<Vec<_>>()}));
+            // the node may be damaged: the next class gets a fresh one
+            c.kill(0);
+        }
+    }
+    st.runs = 1;
+    c.shutdown();
+    st
+}
+
+// ------------------------------------------------------------------------------------------------ C16
+/// One real node through two restarts (src/bin/main.rs's own start-up sequence): databases of which only some were
+/// snapshotted, keys removed and created across the restarts; after the last clean shutdown the persisted key map
+/// (read with nun-db's own loader) must not give one id to two keys, and the node must come up again.
+fn c16_once(seed: u64, tag: &str, v: &Verdicts, st: &Mutex<RealStats>) -> Result<(), String> {
+    let mut r = Rng::new(seed);
+    let mut c = RealCluster::new(1, tag, &[("NUN_DECLUTTER_INTERVAL", "1")]);
+    let res = (|| -> Result<(), String> {
+        form(&mut c, 1).map_err(|e| format!("start: {} {}", e.0, e.1))?;
+        let mut log: Vec<String> = vec![];
+        let mut uniq = 0;
+        let dbs = ["qa", "qb", "qc"];
+        for life in 0..3 {
+            let mut a = c.admin(0).ok_or("no admin session")?;
+            for d in dbs.iter().take(if life == 0 { 2 } else { 3 }) {
+                let _ = a.cmd(&format!("create-db {} t{}", d, d)); // refused if it was restored from disk
+            }
+            let mut snapshotted = vec![];
+            for _ in 0..r.range(4, 9) {
+                uniq += 1;
+                let d = dbs[r.below(if life == 0 { 2 } else { 3 })];
+                if a.cmd(&format!("use-db {} t{}", d, d))?.0 {
+                    let line = match r.below(6) {
+                        0..=2 => format!("set key{} v{}", uniq, uniq),
+                        3 => format!("set key{} again{}", r.range(1, uniq.max(1)), uniq),
+                        4 => format!("remove key{}", r.range(1, uniq.max(1))),
+                        _ => format!("increment cnt{} 1", r.below(3)),
+                    };
+                    a.cmd(&line)?;
+                    log.push(format!("life {} {}: {}", life, d, line));
+                    st.lock().unwrap().ops += 1;
+                }
+            }
+            // only some databases are snapshotted
+            for d in dbs.iter().take(if life == 0 { 2 } else { 3 }) {
+                if r.chance(1, 2) {
+                    a.cmd(&format!("snapshot false {}", d))?;
+                    snapshotted.push(*d);
+                }
+            }
+            log.push(format!("life {}: snapshot of {:?}", life, snapshotted));
+            if !snapshotted.is_empty() {
+                std::thread::sleep(Duration::from_millis(2300));
+            }
+            // a key registered after the snapshot
+            if r.chance(1, 2) {
+                uniq += 1;
+                let _ = a.cmd(&format!("set late{} x", uniq));
+                log.push(format!("life {}: set late{} x (after the snapshot)", life, uniq));
+            }
+            drop(a);
+            let clean = life == 2 || r.chance(1, 2);
+            if clean {
+                if c.sigint(0) != Some(0) {
+                    v.report(json!({"check": "oplog-ids", "problem": "clean-shutdown-failed", "when": "real-process"}), json!({"ops": log, "output": c.log_tail(0, 8)}));
+                    return Ok(());
+                }
+            } else {
+                c.kill(0);
+            }
+            log.push(format!("life {} ends ({})", life, if clean { "SIGINT" } else { "SIGKILL" }));
+            if clean {
+                // the key map as the next start will read it
+                nundb::verif::set_dir(Some(c.nodes[0].dir.clone()));
+                let map = std::panic::catch_unwind(|| nundb::disk_ops::load_keys_map_from_disk());
+                nundb::verif::set_dir(None);
+                if let Ok(map) = map {
+                    let mut by_id: BTreeMap<u64, Vec<String>> = BTreeMap::new();
+                    for (k, id) in map.iter() {
+                        by_id.entry(*id).or_default().push(k.clone());
+                    }
+                    st.lock().unwrap().keys_compared += map.len() as u64;
+                    if let Some((id, ks)) = by_id.iter().find(|(_, ks)| ks.len() > 1) {
+                        v.report(json!({"check": "oplog-ids", "problem": "two-keys-share-an-id", "when": "real-process-key-map-after-a-clean-shutdown"}), json!({"id": id, "keys": ks, "ops": log, "key_map": map.iter().map(|(k, v)| (k.clone(), *v)).collect::<BTreeMap<_, _>>()}));
+                        return Ok(());
+                    }
+                }
+            }
+            if life < 2 {
+                if !c.start(0) {
+                    v.report(json!({"check": "oplog-ids", "problem": "node-does-not-start-again", "when": "real-process"}), json!({"ops": log, "output": c.log_tail(0, 10)}));
+                    return Ok(());
+                }
+                settle(&mut c, &[0], 40).map_err(|e| format!("restart: {} {}", e.0, e.1))?;
+            }
+            st.lock().unwrap().judged_points += 1;
+        }
+        let p = c.panics(0);
+        if !p.is_empty() {
+            v.report(json!({"check": "oplog-ids", "problem": "a-thread-of-the-node-panicked", "when": "real-process"}), json!({"panics": p, "ops": log}));
+        }
+        Ok(())
+    })();
+    c.shutdown();
+    res
+}
+
+pub fn c16_real(v: &Verdicts, runs: usize, seed0: u64) -> RealStats {
+    let st = Mutex::new(RealStats::default());
+    par_runs(runs, 8, |i| {
+        let res = c16_once(seed0.wrapping_mul(16_000_057).wrapping_add(i as u64), &format!("c16-{}", i), v, &st);
+        let mut s = st.lock().unwrap();
+        s.runs += 1;
+        if let Err(why) = res {
+            s.inconclusive += 1;
+            v.inconclusive(&format!("real-process restart run: {}", why));
+        }
+    });
+    st.into_inner().unwrap()
+}
